@@ -262,10 +262,16 @@ def fallback_handlers(prog: Program, res: Results, closure, rid: str = "R-C08-6"
                 if always:
                     r.ob(True, {"site": k, "catches": handler_names(h), "kind": "converts and re-raises"})
                     continue
-                key = (prog.reviewed_key(k), tuple(sorted(str(x) for x in handler_names(h))))
-                seen[key] = seen.get(key, 0) + 1
-                allowed, why = REVIEWED_FALLBACKS.get(key, (0, None))
-                ok = seen[key] <= allowed
+                from sa.report import _site
+                from sa.model import alpha as _alpha
+                # keyed by the function the handler lives in (a closure counts as its function: `f.<helper>` ≡ `f`); copies of
+                # one handler (a helper dissolved into several call sites) are one handler
+                key = (_site(prog.reviewed_key(k)), tuple(sorted(str(x) for x in handler_names(h))))
+                text = _alpha(n, f.node, anonymous=True)
+                seen.setdefault(key, set()).add(text)
+                allowed = sum(a for (kk, ex), (a, _w) in REVIEWED_FALLBACKS.items() if (_site(kk), ex) == key)
+                why = next((w for (kk, ex), (_a, w) in REVIEWED_FALLBACKS.items() if (_site(kk), ex) == key), None)
+                ok = len(seen[key]) <= allowed
                 r.ob(ok, {"site": k, "catches": list(key[1]), "kind": "fallback", "reviewed": why})
                 if not ok:
                     res.add(rid, (k, "unreviewed fallback handler", ",".join(key[1])), f.loc(h),
